@@ -8,6 +8,7 @@ import (
 	"fmt"
 	"net"
 	"net/netip"
+	"sort"
 	"strconv"
 	"strings"
 
@@ -297,9 +298,15 @@ func EvalAll(c *core.Ctx, line string) []*core.Case {
 		if len(a) != 3 {
 			return nil
 		}
-		pf := strings.Split(a[0], "/")
-		bits, _ := strconv.Atoi(pf[1])
-		prefixes := []packet.PrefixInformation{{Prefix: net.IP(core.UnHex(pf[0])), PrefixLength: uint8(bits)}}
+		var prefixes []packet.PrefixInformation
+		for _, one := range strings.Split(a[0], ",") {
+			pf := strings.Split(one, "/")
+			if len(pf) != 2 {
+				return nil
+			}
+			bits, _ := strconv.Atoi(pf[1])
+			prefixes = append(prefixes, packet.PrefixInformation{Prefix: net.IP(core.UnHex(pf[0])), PrefixLength: uint8(bits)})
+		}
 		dst := packet.Addr{MAC: macOf(a[1]), IP: ipOf(a[2])}
 		impl, fr := capture(e, poison, func() error { return e.s.ICMP6SendRouterAdvertisement(prefixes, nil, dst) })
 		lla := hx(e.nic.HostLLA.Addr().AsSlice())
@@ -448,6 +455,38 @@ func Gen(c *core.Ctx) {
 		}
 		return mac()
 	}
+	// checksum carry patterns: sequence numbers for which the 32-bit word sum of the echo request folds to
+	// more than 16 bits once (the second end-around carry matters), found by brute force over all 65536
+	// values with the harness's own arithmetic, plus their neighbours and a random sample
+	{
+		m1, m2, ip1, ip2, id := mac(), mac(), ip4(), ip4(), r.Intn(65536)
+		hello := []byte("HELLO-NETFILTER")
+		picked := map[int]bool{}
+		for seq := 0; seq < 65536; seq++ {
+			msg := append([]byte{8, 0, 0, 0, byte(id >> 8), byte(id), byte(seq >> 8), byte(seq)}, hello...)
+			var sum uint32
+			for i := 0; i+1 < len(msg); i += 2 {
+				sum += uint32(msg[i+1])<<8 | uint32(msg[i])
+			}
+			if len(msg)%2 == 1 {
+				sum += uint32(msg[len(msg)-1])
+			}
+			if f := (sum >> 16) + (sum & 0xffff); f >= 0xffff {
+				picked[seq], picked[(seq+1)%65536], picked[(seq+65535)%65536] = true, true, true
+			}
+		}
+		for k := 0; k < c.Scale(300, 20000); k++ {
+			picked[r.Intn(65536)] = true
+		}
+		seqs := make([]int, 0, len(picked))
+		for q := range picked {
+			seqs = append(seqs, q)
+		}
+		sort.Ints(seqs)
+		for _, seq := range seqs {
+			add(c, fmt.Sprintf("call 0 5a echo4 %s %s %s %s %d %d", m1, ip1, m2, ip2, id, seq))
+		}
+	}
 	N := c.Scale(120, 4000)
 	for i := 0; i < N; i++ {
 		en := r.Intn(3)
@@ -468,7 +507,11 @@ func Gen(c *core.Ctx) {
 		add(c, pre+fmt.Sprintf("ns %s %s %s %s %s", mac(), lla(), mcastMAC(d6), d6, ip6()))
 		if en != 2 {
 			add(c, pre+"rs")
-			add(c, pre+fmt.Sprintf("ra %s/%d 333300000001 ff020000000000000000000000000001", hx(append([]byte{0x20, 0x01, 0x0d, 0xb8}, append(c.RandBytes(4), make([]byte, 8)...)...)), 64))
+			var pfs []string
+			for k := 1 + r.Intn(12)*r.Intn(2); k > 0; k-- { // 1..12 prefixes: messages beyond 255 bytes too
+				pfs = append(pfs, fmt.Sprintf("%s/%d", hx(append([]byte{0x20, 0x01, 0x0d, 0xb8}, append(c.RandBytes(4), make([]byte, 8)...)...)), 64))
+			}
+			add(c, pre+fmt.Sprintf("ra %s 333300000001 ff020000000000000000000000000001", strings.Join(pfs, ",")))
 		}
 		pl := c.RandBytes(r.Intn(400))
 		if i%40 == 0 {
